@@ -56,7 +56,7 @@ var ops = []string{"=", "!=", "=~", "!~"}
 // regular expressions, the series without a / b probe absent labels, "x.*" is a literal value with regex characters.
 // Fingerprints ascend with the pool index (rows arrive ordered by fingerprint), #4 repeats the label set of #0
 // (adjacent when nothing of #1..#3 is in the database, otherwise with other selected series between the two),
-// series have 1, 2 or 3 samples inside the window, #1 has two index rows.
+// series have 1, 2 or 3 samples inside the window, #1 has two index rows, #3 is stored under fingerprint 0.
 var promPool = []map[string]string{
 	{"__name__": "m", "a": "x"},
 	{"__name__": "m", "a": "y", "b": "x"},
@@ -131,7 +131,7 @@ func promMatcherDB(idx []int) *MetricDB {
 			smp = append(smp, model.Sample{TimestampMs: baseMs + 5_000 + int64(k)*7_000 + int64(i)*100, Value: v + float64(k+1)})
 		}
 		smp = append(smp, model.Sample{TimestampMs: baseMs + 100_000 + int64(i), Value: v + 9})
-		db.Series = append(db.Series, MSeries{Labels: promPool[i], Samples: smp, Fp: uint64(10 * (i + 1)), TwoIndexRows: i == 1})
+		db.Series = append(db.Series, MSeries{Labels: promPool[i], Samples: smp, Fp: uint64(10 * (i + 1)), TwoIndexRows: i == 1, FpZero: i == 3})
 	}
 	return db
 }
